@@ -367,7 +367,7 @@ def lookup_current_fallback(ck, F, rid="C07.R3"):
     if lcf is not None and lc is not None:
         walks = [t for bb, t in lcf.calls() if t["callee"].get("path") == "tracing_subscriber::registry::sharded::Registry::span_stack"]
         it = [t for bb, t in lcf.calls() if t["callee"].get("path") == "tracing_subscriber::registry::stack::SpanStack::iter"]
-        used = any(t["callee"].get("path") == P + "lookup_current_filtered" for bb, t in lc.calls())
+        used = any(t["callee"].get("path") == P + "lookup_current_filtered" for x in [lc] + F.closures_of(lc) for bb, t in x.calls())   # (`.or_else(|| ..)` too)
         if walks and it and used:
             ck.ok(rid, "lookup_current falls back to the newest accepted span of the thread's entered-span stack", fn=lcf.path)
         else:
